@@ -1,8 +1,9 @@
 //! A TCP forwarder placed between client and server: it can cut every link it carries (both sockets
 //! closed or reset) on command, stall, or just pass bytes through re-segmented.
 
+use std::collections::BTreeMap;
 use std::sync::atomic::{AtomicBool, AtomicU64, Ordering};
-use std::sync::Arc;
+use std::sync::{Arc, Mutex};
 use std::time::Duration;
 
 use tokio::io::{AsyncReadExt, AsyncWriteExt};
@@ -19,6 +20,8 @@ pub struct Chopper {
     /// maximum bytes forwarded per write (re-segmentation); 0 = unlimited
     pub segment: Arc<AtomicU64>,
     pub links: Arc<AtomicU64>,
+    /// everything each link carried towards the upstream side, by link number in order of acceptance (the attacker's tape)
+    pub recorded: Arc<Mutex<BTreeMap<u64, Vec<u8>>>>,
     task: tokio::task::JoinHandle<()>,
 }
 
@@ -36,11 +39,15 @@ pub async fn start(upstream: u16) -> std::io::Result<Chopper> {
     let blackhole = Arc::new(AtomicBool::new(false));
     let segment = Arc::new(AtomicU64::new(0));
     let links = Arc::new(AtomicU64::new(0));
-    let (c, r, b, sg, lk) = (cut.clone(), reset.clone(), blackhole.clone(), segment.clone(), links.clone());
+    let recorded: Arc<Mutex<BTreeMap<u64, Vec<u8>>>> = Arc::new(Mutex::new(BTreeMap::new()));
+    let (c, r, b, sg, lk, rec) = (cut.clone(), reset.clone(), blackhole.clone(), segment.clone(), links.clone(), recorded.clone());
     let task = tokio::spawn(async move {
+        let mut serial = 0u64;
         loop {
             let Ok((a, _)) = l.accept().await else { continue };
-            let (c, r, b, sg, lk) = (c.clone(), r.clone(), b.clone(), sg.clone(), lk.clone());
+            serial += 1;
+            let link_no = serial;
+            let (c, r, b, sg, lk, rec) = (c.clone(), r.clone(), b.clone(), sg.clone(), lk.clone(), rec.clone());
             tokio::spawn(async move {
                 let Ok(s) = TcpStream::connect(("127.0.0.1", upstream)).await else { return };
                 let _ = a.set_nodelay(true);
@@ -48,7 +55,7 @@ pub async fn start(upstream: u16) -> std::io::Result<Chopper> {
                 lk.fetch_add(1, Ordering::SeqCst);
                 let (ar, aw) = a.into_split();
                 let (sr, sw) = s.into_split();
-                let pump = |mut from: tokio::net::tcp::OwnedReadHalf, mut to: tokio::net::tcp::OwnedWriteHalf, c: Arc<AtomicBool>, b: Arc<AtomicBool>, sg: Arc<AtomicU64>| async move {
+                let pump = |mut from: tokio::net::tcp::OwnedReadHalf, mut to: tokio::net::tcp::OwnedWriteHalf, c: Arc<AtomicBool>, b: Arc<AtomicBool>, sg: Arc<AtomicU64>, tape: Option<Arc<Mutex<BTreeMap<u64, Vec<u8>>>>>| async move {
                     let mut buf = vec![0u8; 65536];
                     loop {
                         if c.load(Ordering::SeqCst) {
@@ -61,6 +68,13 @@ pub async fn start(upstream: u16) -> std::io::Result<Chopper> {
                                 break;
                             }
                             Ok(Ok(n)) => {
+                                if let Some(t) = &tape {
+                                    let mut g = t.lock().unwrap();
+                                    let e = g.entry(link_no).or_default();
+                                    if e.len() < (1 << 20) {
+                                        e.extend_from_slice(&buf[..n]);
+                                    }
+                                }
                                 if b.load(Ordering::SeqCst) {
                                     continue;
                                 }
@@ -81,7 +95,7 @@ pub async fn start(upstream: u16) -> std::io::Result<Chopper> {
                     }
                     (from, to)
                 };
-                let ((ar2, sw2), (sr2, aw2)) = tokio::join!(pump(ar, sw, c.clone(), b.clone(), sg.clone()), pump(sr, aw, c.clone(), b.clone(), sg.clone()));
+                let ((ar2, sw2), (sr2, aw2)) = tokio::join!(pump(ar, sw, c.clone(), b.clone(), sg.clone(), Some(rec.clone())), pump(sr, aw, c.clone(), b.clone(), sg.clone(), None));
                 if r.load(Ordering::SeqCst) {
                     if let Ok(a) = ar2.reunite(aw2) {
                         let _ = a.set_linger(Some(Duration::from_secs(0)));
@@ -94,5 +108,5 @@ pub async fn start(upstream: u16) -> std::io::Result<Chopper> {
             });
         }
     });
-    Ok(Chopper { port, cut, reset, blackhole, segment, links, task })
+    Ok(Chopper { port, cut, reset, blackhole, segment, links, recorded, task })
 }
